@@ -95,8 +95,17 @@ class Interactor:
 
         This triggers the close function on available accumulators.
         """
+        failure = None
         for acc in self.to_close:
-            acc.close()
+            try:
+                acc.close()
+            except BaseException as exc:
+                # The other accumulators are closed nonetheless (they may
+                # belong to other probes); the first failure propagates
+                if failure is None:
+                    failure = exc
+        if failure is not None:
+            raise failure
 
 
 class WorkingFrame:
